@@ -42,6 +42,9 @@ def build_env(ctx: ShardCtx, res: ShardResult):
     env = AppEnv()
     env.add_fixture_stream('bbb')
     env.add_fixture_stream('tears')
+    # a stream whose saved per-stream defaults differ from the global ones: manifest and media
+    # handlers must resolve the same option values from (stream defaults + URL)
+    env.add_defaults_stream()
     try:
         from dlv import synth
         synth.add_synthetic_streams(env, ctx, res)
